@@ -6,3 +6,4 @@ import MW.Props.C11
 #print axioms MW.Props.C11.fee_withdraw
 #print axioms MW.Props.C11.C11_split_world
 #print axioms MW.Props.C11.C11_fee_withdraw_world
+#print axioms MW.Props.C11.messages_are_the_modelled_ones
